@@ -123,7 +123,7 @@ def rule_nm(ctx):
                 why = 'receiver %s of unknown provenance' % A.short(root)
             det = 'mutates-source(%s)' % what if not ok else 'mutation-on-fresh(%s:%s)' % (A.short(recv, 30), what)
             rep.ob('NM', K.key(qual, None, det), ok, node, why)
-    rep.floor('mutating operations in database.py', n_mut, 5)
+    rep.floor('mutating operations in database.py', n_mut, 3)
 
 
 def _const_str(e):
